@@ -25,6 +25,28 @@ def sh(cmd, cwd=None, timeout=600, env=None, input=None, check=False):
     return p
 
 
+def run_group(cmd, timeout=60, **kw):
+    """subprocess.run in a process group of its own; whatever the command leaves behind (test processes that
+    spin after their runner was stopped or has gone) is killed when it returns or times out"""
+    import signal
+    proc = subprocess.Popen(cmd, start_new_session=True, **kw)
+    try:
+        out, err = proc.communicate(input=kw.pop("_input", None), timeout=timeout)
+        return subprocess.CompletedProcess(cmd, proc.returncode, out, err)
+    except subprocess.TimeoutExpired as ex:
+        try:
+            os.killpg(proc.pid, signal.SIGKILL)
+        except OSError:
+            pass
+        out, err = proc.communicate()
+        raise subprocess.TimeoutExpired(cmd, timeout, output=out, stderr=err)
+    finally:
+        try:
+            os.killpg(proc.pid, signal.SIGKILL)
+        except OSError:
+            pass
+
+
 @contextlib.contextmanager
 def locked(name):
     os.makedirs(WORK, exist_ok=True)
